@@ -239,6 +239,31 @@ def check(rng, override=None):
         if np.abs(Dbeg0 - DbegB).max() > 1e-10:
             C.push(out, dict(what='with a distinct initial steady state the date-0 beginning-of-period distribution is not that of the initial steady state', input=dict(kind='newton', model='KS', ss_initial='different'),
                              observed=float(np.abs(Dbeg0 - DbegB).max()), signature=dict(op='initial-ss-het', case='Dbeg0')))
+        # the same economy with the household written as a STAGE block: same steady state, and the same transitions from the same and from a distinct initial steady state
+        from lib import het as H
+        hm = H.load()
+        from sequence_jacobian.blocks.stage_block import StageBlock
+        from sequence_jacobian.blocks.support.stages import Continuous1D, ExogenousMaker
+        hh_stage = StageBlock([ExogenousMaker('Pi', 0, 'stage0'), Continuous1D(backward='Va', policy='a', f=hm.household_new, name='stage1')],
+                              name='hh_stage', backward_init=hm._hh_init, hetinputs=(ks.income, ks.make_grids))
+        kss = create_model([hh_stage, ks.firm, ks.mkt_clearing], name='KS_stage')
+        sk_opts = {'KS_stage': dict(verbose=False, maxit=40, tol=1e-9)}
+        n += 1
+        try:
+            sA = kss.solve_steady_state(dict(calk), {'K': (2.9, 4.5)}, ['asset_mkt'], solver='brentq')
+            sB = kss.solve_steady_state(dict(calk, Z=0.88), {'K': (2.9, 4.5)}, ['asset_mkt'], solver='brentq')
+            s_same = kss.solve_impulse_nonlinear(sA, ['K'], ['asset_mkt'], {'Z': np.zeros(Tk)}, ss_initial=sA, options=sk_opts)
+            dev = max(float(np.abs(s_same[k]).max()) for k in ('K', 'C', 'A'))
+            if dev > 1e-7:
+                C.push(out, dict(what='with a stage-block household, passing the steady state itself as ss_initial produces a non-zero transition for a zero shock', input=dict(kind='newton', model='KS_stage', ss_initial='same'), observed=dev,
+                                 signature=dict(op='initial-ss-stage', case='same')))
+            s_diff = kss.solve_impulse_nonlinear(sA, ['K'], ['asset_mkt'], {'Z': np.zeros(Tk)}, ss_initial=sB, options=sk_opts)
+            gap = max(float(np.abs((s_diff[k] + sA[k]) - (r_diff[k] + ssA[k])).max()) for k in ('K', 'C', 'Y'))
+            if abs(sA['K'] - ssA['K']) > 1e-6 or gap > 1e-5:
+                C.push(out, dict(what='the transition from a distinct initial steady state differs between the stage-block household and the backward-function household of the same economy', input=dict(kind='newton', model='KS_stage', ss_initial='different'),
+                                 observed=gap, signature=dict(op='initial-ss-stage', case='different')))
+        except Exception as ex:
+            C.push(out, dict(what=f'KS model with a stage-block household raised {type(ex).__name__}: {ex}', input=dict(kind='newton', model='KS_stage'), signature=dict(op='initial-ss-stage', case='raise')))
     # a LINEAR model (targets affine in the unknowns): the nonlinear solution is the linear impulse (one exact Newton update -- theorem C06.2)
     lm = M.write_linear_models('c06lin', [[dict(name='a', ins=['x', 'z'], outs={'y': {'x': (2, -1), 'z': 1}}),
                                            dict(name='b', ins=['y', 'x', 'z'], outs={'res': {'y': 1, 'x': (-3, 0), 'z': (1, 1)}})]])
